@@ -303,6 +303,9 @@ end generic
 /-! ## Starlark values (the ones C16 quantifies over) -/
 
 inductive Val where
+  | none                               -- `None`
+  | bool (b : Bool)
+  | int (i : Int)
   | str (s : List UInt8)
   | bytes (b : List UInt8)
   | tuple (xs : List Val)
@@ -313,6 +316,9 @@ deriving Repr
 mutual
 /-- structural equality (`deriving DecidableEq` does not work on nested inductives) -/
 def Val.beq : Val → Val → Bool
+  | .none, .none => true
+  | .bool a, .bool b => a == b
+  | .int a, .int b => a == b
   | .str a, .str b => a == b
   | .bytes a, .bytes b => a == b
   | .tuple xs, .tuple ys => Val.beqList xs ys
@@ -332,6 +338,9 @@ end
 mutual
 /-- nesting depth: the `depth` a comparison of this value with itself needs -/
 def Val.height : Val → Nat
+  | .none => 1
+  | .bool _ => 1
+  | .int _ => 1
   | .str _ => 1
   | .bytes _ => 1
   | .tuple xs => 1 + Val.heightList xs
@@ -375,6 +384,9 @@ def dictEqWith (f : Val → Val → Except Err Bool) (ys : List (Val × Val)) : 
 /-- `starlark.EqualDepth(x, y, depth)` -/
 def equalDepth : Nat → Val → Val → Except Err Bool
   | 0, _, _ => .error .depth                                   -- if depth < 1
+  | _ + 1, .none, .none => .ok true                            -- not Comparable: identity
+  | _ + 1, .bool a, .bool b => .ok (a == b)
+  | _ + 1, .int a, .int b => .ok (a == b)
   | _ + 1, .str a, .str b => .ok (a == b)
   | _ + 1, .bytes a, .bytes b => .ok (a == b)
   | d + 1, .tuple xs, .tuple ys => if xs.length ≠ ys.length then .ok false else allEqWith (equalDepth d) xs ys
@@ -389,7 +401,7 @@ def Val.elems? : Val → Option (List Val)
   | .bytes s => some (s.map fun c => .bytes [c])
   | .tuple xs => some xs
   | .list xs => some xs
-  | .dict _ => none
+  | _ => Option.none
 
 /-- `indexReturnsSlice` -/
 def Val.indexReturnsSlice : Val → Bool
